@@ -217,6 +217,10 @@ func (s Spec) cjk(style extension.EastAsianLineBreaks, esc bool) goldmark.Extend
 }
 
 func (s Spec) linkify() goldmark.Extender {
+	if s.Rich && s.Rich3 {
+		// the extension value everybody uses; its options arrive as parser options (ParserOptions below)
+		return extension.Linkify
+	}
 	if s.Rich && s.Rich2 {
 		return extension.NewLinkify(extension.WithLinkifyAllowedProtocols([][]byte{[]byte("https:"), []byte("gopher:"), []byte("mailto:"), []byte("tel:")}),
 			extension.WithLinkifyURLRegexp(richURLRegexp), extension.WithLinkifyWWWRegexp(richWWWRegexp), extension.WithLinkifyEmailRegexp(richEmailRegexp))
@@ -228,6 +232,10 @@ func (s Spec) linkify() goldmark.Extender {
 }
 
 func (s Spec) typographer() goldmark.Extender {
+	if s.Rich && s.Rich3 {
+		// the extension value everybody uses; the substitutions arrive as a parser option (ParserOptions below)
+		return extension.Typographer
+	}
 	if s.Rich && s.Rich4 {
 		// an empty (non-nil) replacement means "replace by nothing": the punctuation disappears, nothing of the source is written
 		return extension.NewTypographer(extension.WithTypographicSubstitutions(map[extension.TypographicPunctuation][]byte{
@@ -343,6 +351,14 @@ func (s Spec) ParserOptions() []parser.Option {
 	}
 	if s.Attribute {
 		po = append(po, parser.WithAttribute())
+	}
+	if s.Rich && s.Rich3 && s.HasExt(STypographer) {
+		// options of an extension given through the parser-option route, on top of the extension's shared default value
+		po = append(po, extension.WithTypographicSubstitutions(map[extension.TypographicPunctuation]string{
+			extension.LeftDoubleQuote: "&laquo;", extension.RightDoubleQuote: "&raquo;", extension.EnDash: "&minus;", extension.Apostrophe: "&prime;"}))
+	}
+	if s.Rich && s.Rich3 && s.HasExt(SLinkify) {
+		po = append(po, extension.WithLinkifyAllowedProtocols([]string{"http:", "https:", "gopher:"}))
 	}
 	return po
 }
